@@ -73,6 +73,7 @@ type Exec struct {
 	tweaks       int
 	mapSites     int
 	stubRet      map[string][]Value
+	vfs          map[string]*vfsNode
 	mapSite      int
 	rotations    []string
 	initPkg      *ssa.Package
